@@ -209,7 +209,7 @@ class Check:
         }
         if broken:
             ev['analysis_broken'] = broken
-        if replay_target is None:
+        if replay_target is None and not os.environ.get('VERIF_NO_EVIDENCE'):
             with open(os.path.join(EVID, self.pid + '.json'), 'w') as fh:
                 json.dump(ev, fh, indent=1)
         for l in out_lines:
@@ -223,5 +223,6 @@ class Check:
         if broken:
             for b in broken:
                 print('ANALYSIS-BROKEN property=%s %s' % (self.pid, b))
-            return 2
+            if not nviol:
+                return 2
         return 1 if nviol else 0
